@@ -38,15 +38,7 @@ pub struct CsvCmp {
 /// Compare the four csvdump files in `dump` with the model, for the range the
 /// file names carry. `addr`: also compare the address column (where the model is certain).
 pub fn compare_csvdump(pfx: &str, m: &Model, o: &RunOutcome, addr: bool, st: &mut Stats) -> Result<CsvCmp, Violation> {
-    let mut b = final_files(&o.dump, "blocks");
-    if b.len() > 1 {
-        // other results live in the folder: take the one this run produced
-        let changed = new_or_changed(o);
-        let mine: Vec<_> = b.iter().filter(|f| changed.contains(&f.2)).cloned().collect();
-        if mine.len() == 1 {
-            b = mine;
-        }
-    }
+    let b = run_files(o, "blocks");
     if b.len() != 1 {
         return Err(viol(format!("{}/files-missing", pfx), format!("expected exactly one blocks-*.csv, found {} ({:?})", b.len(), o.dump.keys().collect::<Vec<_>>())));
     }
@@ -137,6 +129,13 @@ pub fn compare_rowset(pfx: &str, stem: &str, header: &str, want: &[String], o: &
 pub fn run_files<'a>(o: &'a RunOutcome, stem: &str) -> Vec<(u64, u64, &'a String, &'a Vec<u8>)> {
     let all = final_files(&o.dump, stem);
     if all.len() > 1 {
+        // other results live in the folder: take the one named for the range this run reports
+        if let Some((s, e)) = o.reported() {
+            let mine: Vec<_> = all.iter().filter(|f| (f.0, f.1) == (s, e)).cloned().collect();
+            if mine.len() == 1 {
+                return mine;
+            }
+        }
         let changed = new_or_changed(o);
         let mine: Vec<_> = all.iter().filter(|f| changed.contains(&f.2)).cloned().collect();
         if mine.len() == 1 {
@@ -369,14 +368,14 @@ pub fn normalized_output(r: &RunSpec, o: &RunOutcome) -> Vec<String> {
     match r.callback.as_str() {
         "csvdump" => {
             for stem in ["blocks", "transactions", "tx_in", "tx_out"] {
-                for f in final_files(&o.dump, stem) {
+                for f in run_files(o, stem) {
                     out.push(format!("{}:{}", f.2, String::from_utf8_lossy(f.3)));
                 }
             }
         }
         "unspentcsvdump" | "balances" => {
             let stem = if r.callback == "balances" { "balances" } else { "unspent" };
-            for f in final_files(&o.dump, stem) {
+            for f in run_files(o, stem) {
                 let t = String::from_utf8_lossy(f.3).into_owned();
                 let mut l: Vec<&str> = t.lines().collect();
                 let head = if l.is_empty() { "" } else { l.remove(0) };
